@@ -78,3 +78,8 @@ Fixpoint bytes_eqb (a b : bytes) : bool :=
   | x :: a', y :: b' => (x =? y) && bytes_eqb a' b'
   | _, _ => false
   end.
+
+Definition is_nil_b {A} (l : list A) : bool := match l with [] => true | _ => false end.
+
+Definition hexdigit (n : N) : N := if n <? 10 then 48 + n else 87 + n.
+Definition hex_encode (bs : bytes) : bytes := concat (map (fun b => [hexdigit (b / 16); hexdigit (b mod 16)]) bs).
